@@ -260,9 +260,21 @@ def run(ctx):
     first_reads.sort(key=lambda x: sum(1 for y in first_reads if hd.dominates(y, x)))
     ok = len(busted) == 1 and busted[0][0].key == hd.key
     if ok:
+        # where the ID-less error becomes the function's failure: `first_read.ok_or(CompletelyBusted)` as a call, or -
+        # its normal form - an Err(CompletelyBusted) built only on the None edge of the very first read
+        first_none = lambda fc: fc[0] == "is" and fc[1] == "None" and A.peel(fc[2])[0] == "call" and A.peel(fc[2])[1] == CB + "next_u16" \
+            and A.peel(fc[2])[3][1] == first_reads[0]
+        hc_ = A.Conds(hd, hr)
         ok_or = [(b, hr.call_expr(t, b)) for b, t in hd.calls() if (t.get("callee") or "").endswith("Option::<T>::ok_or")]
         mine = [e for b, e in ok_or if A.peel(e[2][1])[0] == "agg" and A.peel(e[2][1])[2] == "CompletelyBusted"]
-        ok = len(mine) == 1 and A.peel(mine[0][2][0])[0] == "call" and A.peel(mine[0][2][0])[1] == CB + "next_u16" and A.peel(mine[0][2][0])[3][1] == first_reads[0]
+        as_call = len(mine) == 1 and A.peel(mine[0][2][0])[0] == "call" and A.peel(mine[0][2][0])[1] == CB + "next_u16" and A.peel(mine[0][2][0])[3][1] == first_reads[0]
+        errs = []
+        for b, i, st in A.aggregates(hd, "std::result::Result", "Err"):
+            pv = A.peel(hr.operand(st["rv"]["ops"][0], (b, i)))
+            if pv[0] == "agg" and pv[2] == "CompletelyBusted":
+                errs.append(b)
+        as_match = bool(errs) and all(hc_.guarded(b, first_none)[0] for b in errs)
+        ok = (as_call and not errs) or (as_match and not mine)
     ctx.check(ok, "C03.5", "CompletelyBusted:only-before-id", "the ID-less error is raised only when the very first u16 read fails", "CompletelyBusted can be raised after the ID was available", hd.loc())
     n_err = 0
     for f, b, i, st in A.who_constructs(prog, ERR):
@@ -370,14 +382,7 @@ def run(ctx):
 
 def _stays(f, body, s, header):
     """can control go from s back to the loop header without leaving the loop body?"""
-    seen = set()
-    stack = [s]
-    while stack:
-        x = stack.pop()
-        if x == header:
-            return True
-        if x in seen or x not in body:
-            continue
-        seen.add(x)
-        stack.extend(f.succs(x))
-    return False
+    # variant-aware: a `None` turned into `Err(..)` and handed to `?` leaves through the Break edge only
+    outside = [b for b in f.live_blocks() if b not in body]
+    reach, edges = A.reachable_tagged(f, s, removed_blocks=outside, want_edges=True)
+    return header in reach and any(y == header for x, y in edges)
